@@ -960,6 +960,9 @@ class Engine:
         c = self.contracts.get(cls)
         if c is not None:
             return c(self, *args, **kwargs)
+        nm = NATIVE_MODELS.get(cls)
+        if nm is not None:
+            return nm(self, *args, **kwargs)
         if cls is int:
             return self.builtin_int(*args)
         if cls is bool:
@@ -1964,8 +1967,8 @@ def effectively_constant_global(g, name):
                         continue
                     par = parents.get(n)
                     if isinstance(n.ctx, (ast.Store, ast.Del)):
-                        # the one module-level binding in the home module
-                        if home and isinstance(n, ast.Name) and isinstance(par, (ast.Assign, ast.AnnAssign)) and parents.get(par) is tree:
+                        # the one module-level binding (in the defining module; other modules import the name)
+                        if isinstance(n, ast.Name) and isinstance(par, (ast.Assign, ast.AnnAssign)) and parents.get(par) is tree:
                             binds += 1
                             continue
                         ok = False
